@@ -1,0 +1,18 @@
+//go:build verif && verif_swu
+
+package secp256k1
+
+// Verification hooks (build tags `verif` and `verif_swu`): the SWU map
+// and the 3-isogeny of internal/swu.  Expose-only.
+
+import "gitlab.com/yawning/secp256k1-voi/internal/swu"
+
+// VerifSWUMap exposes swu.MapToCurveSimpleSWU.
+func VerifSWUMap(u *VerifFieldElement) (*VerifFieldElement, *VerifFieldElement) {
+	return swu.MapToCurveSimpleSWU(u)
+}
+
+// VerifSWUIsoMap exposes swu.IsoMap.
+func VerifSWUIsoMap(x, y *VerifFieldElement) (*VerifFieldElement, *VerifFieldElement, uint64) {
+	return swu.IsoMap(x, y)
+}
